@@ -15,6 +15,9 @@ VERIF = os.environ.get("MUT_VERIF", "/verif")
 ALL = ["C%02d" % i for i in range(1, 19)]
 
 def order_for(path):
+    if os.environ.get("MUT_ONLY"):
+        # an explicit list of checks (a pass over survivors with the checks that the per-file mapping leaves out)
+        return os.environ["MUT_ONLY"].split(",")
     def rest(first):
         # only the checks that observe the mutated file (MUT_ALL=1: every check, most relevant first)
         if os.environ.get("MUT_ALL"):
